@@ -67,6 +67,14 @@ def stepNum (args : List String) : String :=
       let (x, d) := Libvna.LA.minverse CF.abs v.toArray n
       "ok " ++ cfToHex d ++ " X " ++ joinHex x.toList
     | _, _ => "bad-args"
+  | "lu" :: ns :: rest =>
+    match ns.toNat?, parseCFs rest with
+    | some n, some v =>
+      if v.length != n * n then "bad-args" else
+      let (a, ri, d) := Libvna.LA.lu CF.abs v.toArray n
+      "ok " ++ cfToHex d ++ " P" ++ ri.foldl (fun acc i => acc ++ " " ++ toString i) "" ++ " A" ++
+        (if n == 0 then "" else " " ++ joinHex a.toList)
+    | _, _ => "bad-args"
   | "rfi" :: rest => Libvna.Drv.stepRfi rest
   | "spline" :: rest => Libvna.Drv.stepSpline rest
   | _ => "unmodelled"
